@@ -214,6 +214,39 @@ theorem C04_decompose_union (S : SchemeDef) (A B : Mol) (hA : A.wf = true) (hB :
       rw [Rl.2 rU' rU hu' hU t]
       exact U.2 rU' rA rB asgA asgB hu' hrA hrB hasA hasB hsep t
 
+/-- **C04 for a mixture numbered as RDKit numbers it.** RDKit does not number `'A.B'` as `A ⊔ B` (after `AddHs` the heavy
+atoms of both parts come first, then the hydrogens; heavy-atom bonds are listed before X–H bonds); its graph `M` is `A ⊔ B`
+renumbered (`MolIso π (A ⊔ B) M`: atoms renamed, bonds renamed in any order, rings renamed in the same order — re-checked
+by the harness on every mixture with the explicit permutation).  For every such `M`: the decomposition of `M` fails
+exactly when that of `A` or of `B` fails, and otherwise every name gets the sum of the two counts.  (C03 ∘ C04.) -/
+theorem C04_decompose_mixture (S : SchemeDef) (A B M : Mol) {π : Nat → Nat} (iso : MolIso π (A.union B) M)
+    (hA : A.wf = true) (hB : B.wf = true)
+    (hq : S.wf = true) (hs : S.noStar = true) (hmp : S.noMolPrefix = true) (hcn : S.connected = true)
+    (capa : maxRaw S (aromatizeBenson A) < maxMatches) (capb : maxRaw S (aromatizeBenson B) < maxMatches)
+    (capu : maxRaw S ((aromatizeBenson A).union (aromatizeBenson B)) < maxMatches)
+    (capm : maxRaw S (aromatizeBenson M) < maxMatches)
+    (hcf : ChainFree S.remaps) :
+    (decompose S M = .error .patternMatch ↔
+      decompose S A = .error .patternMatch ∨ decompose S B = .error .patternMatch) ∧
+    ∀ rM rA rB asgA asgB, decompose S M = .ok rM → decompose S A = .ok rA → decompose S B = .ok rB →
+      assignCentres (toInput S (aromatizeBenson A)) = .ok asgA → assignCentres (toInput S (aromatizeBenson B)) = .ok asgB →
+      Separated (toInput S (aromatizeBenson A)) (toInput S (aromatizeBenson B)) asgA asgB →
+      ∀ t, rM.get t = rA.get t + rB.get t := by
+  have U := C04_decompose_union S A B hA hB hq hs hmp hcn capa capb capu hcf
+  have capu' : maxRaw S (aromatizeBenson (A.union B)) < maxMatches := by rw [aromatizeBenson_union A B hA hB]; exact capu
+  have R := PGA.C03.C03_decompose_relabel S iso (wf_union A B hA hB) hq hs capu' capm hcf
+  constructor
+  · rw [R.1]; exact U.1
+  · intro rM rA rB asgA asgB hM hrA hrB hasA hasB hsep t
+    cases hu : decompose S (A.union B) with
+    | error e =>
+      cases e
+      have := R.1.2 hu
+      rw [hM] at this; cases this
+    | ok rU =>
+      rw [R.2 rU rM hu hM t]
+      exact U.2 rU rA rB asgA asgB hu hrA hrB hasA hasB hsep t
+
 /-! ### non-vacuity: two copies of a C–H fragment under a two-entry scheme -/
 def exScheme : SchemeDef :=
   { centres := [⟨"C", "C", ⟨"a", [], [⟨"c1", ⟨none, .elem 6, .free⟩, []⟩, ⟨"h", ⟨none, .elem 1, .free⟩, []⟩], [⟨1, 0, .single⟩], []⟩⟩,
